@@ -226,6 +226,15 @@ std::string classifyDeath(const std::string &err, int status) {
     if (sp != std::string::npos) fn = fn.substr(sp + 1);
     return "assert:" + fn;
   }
+  if ((p = err.find(") failed from ")) != std::string::npos && (err.find("alloc(") != std::string::npos)) {
+    // ckd_alloc: "calloc(n,size) failed from /path/file.c(line)" then exit(-1)
+    size_t a = p + 14;
+    size_t e = err.find('(', a);
+    std::string file = err.substr(a, e == std::string::npos ? e : e - a);
+    size_t sl = file.rfind('/');
+    if (sl != std::string::npos) file = file.substr(sl + 1);
+    return "alloc-exit:" + file;
+  }
   if ((p = err.rfind("FATAL: \"")) != std::string::npos) {
     size_t q = err.find('"', p + 8);
     std::string file = err.substr(p + 8, q - p - 8);
@@ -651,6 +660,10 @@ int main(int argc, char **argv) {
   loadKnown();
   if (S.prop->init) S.prop->init();
 
+  if (argflag(argc, argv, "--count")) {
+    printf("COUNT %ld\n", S.prop->count ? S.prop->count() : 0L);
+    return 0;
+  }
   if (auto rp = argval(argc, argv, "--replay")) {
     std::vector<uint32_t> ch;
     if (!readCase(rp, ch)) {
@@ -669,6 +682,45 @@ int main(int argc, char **argv) {
     if (o.inconclusive) return 12;
     if (matchKnown(o.v.key)) return 11;
     return 10;
+  }
+
+  // --- deterministic enumeration of an index range (fault enumeration) ---
+  if (auto en = argval(argc, argv, "--enumerate")) {
+    uint64_t a = strtoull(en, nullptr, 10), b = a;
+    for (int i = 1; i + 2 < argc; ++i)
+      if (!strcmp(argv[i], "--enumerate")) b = strtoull(argv[i + 2], nullptr, 10);
+    uint64_t stride = 1;
+    if (auto st = argval(argc, argv, "--stride")) stride = strtoull(st, nullptr, 10);
+    for (uint64_t i = a; i < b; i += stride) {
+      std::vector<uint32_t> ch{(uint32_t)i};
+      Outcome o = runCase(ch);
+      account(ch, o);
+      if (o.v.ok || o.inconclusive) continue;
+      if (matchKnown(o.v.key)) {
+        ++S.excludedKnown[o.v.key];
+        continue;
+      }
+      S.haveFail = true;
+      S.failKey = o.v.key;
+      S.failDetail = o.v.detail;
+      S.failDesc = o.ctx.desc;
+      S.failChoices = ch;
+      break;
+    }
+    unlink(S.stderrPath.c_str());
+    if (S.haveFail && !S.failPath.empty()) {
+      // keep the index even when it is 0
+      std::ofstream f(S.failPath);
+      f << "# property=" << S.prop->id << " key=" << S.failKey << "\n";
+      f << "# case: " << esc(S.failDesc) << "\n";
+      std::istringstream dd(S.failDetail);
+      std::string line;
+      int n = 0;
+      while (std::getline(dd, line) && n++ < 60) f << "# detail: " << line << "\n";
+      f << "choices: " << S.failChoices[0] << "\n";
+    }
+    writeStats(S.haveFail ? 1 : 0);
+    return S.haveFail ? 10 : 0;
   }
 
   // --- rapidcheck run ---
